@@ -49,6 +49,11 @@ def plan(tier, seed):
     for fmt in ("xyz", "pdb", "mol2"):
         for i in range(1 if tier == "quick" else 12):
             cases.append({"fmt": fmt, "klass": "huge", "i": i, "seed": seed})
+    # every combination of pure / Cartesian d, f and g shells present together (the Molden tags [5D], [5D10F], [7F], [5D7F], [9G]
+    # and their absence; the per-shell type codes of FCHK / Molekel)
+    for fmt in ("molden", "molekel", "fchk"):
+        for i in range(8 * (1 if tier == "quick" else 10)):
+            cases.append({"fmt": fmt, "klass": "kinds", "i": i, "seed": seed})
     return cases
 
 
@@ -197,7 +202,15 @@ def run_case(case):
     rng = gb.rng_for(2, case["seed"], case["i"], sum(map(ord, fmt + case["klass"])))
     if case["klass"] == "variant":
         return run_variant(case, rng)
-    data, feats = go.make(fmt, rng, case["klass"])
+    if case["klass"] == "kinds":
+        from ..gen import wfnobjects as wo
+
+        combo = {2: "pc"[case["i"] & 1], 3: "pc"[(case["i"] >> 1) & 1], 4: "pc"[(case["i"] >> 2) & 1]}
+        data, feats = wo.make(rng, fmt, lmax=4, force_kinds=combo, need_l=(2, 3, 4) if case["i"] % 16 < 8 else (2, 3), nbasis_max=60,
+                              contraction="segmented", conv_class="native", spin="restricted", ghosts="none", natom=2)
+        feats = dict(feats, fmt=fmt, klass="kinds", kinds="".join(combo[l] for l in (2, 3, 4)))
+    else:
+        data, feats = go.make(fmt, rng, case["klass"])
     # FCHK run types: every documented value is in the domain
     if fmt == "fchk":
         data.run_type = [None, "energy", "energy_force", "opt", "scan", "freq"][case["i"] % 6]
